@@ -84,7 +84,7 @@ func drawContractOps(t *sim.Tape) []cop {
 	ops := []cop{{kind: "form"}}
 	n := t.Range(3, 10)
 	for i := 0; i < n; i++ {
-		k := pick(t, "append", "append", "append", "free", "roots", "fund", "fund", "replenish", "renew", "refresh-full", "refresh-partial", "fund-exact", "fund-over", "expired-prices", "bad-prices-sig", "append-big", "hostile")
+		k := pick(t, "append", "append", "append", "free", "roots", "fund", "fund", "replenish", "renew", "refresh-full", "refresh-partial", "fund-exact", "fund-over", "expired-prices", "bad-prices-sig", "append-big", "hostile", "hostile-host")
 		ops = append(ops, cop{kind: k})
 	}
 	for i := range ops {
@@ -788,6 +788,36 @@ func runContractV2(s *Session, ops []cop) {
 				}
 				if rerr == nil && !host.pk.VerifyHash(chain.s.ContractSigHash(rev), sig) {
 					bad("parties-disagree", "%s: the host signed a different revision than the renter derived", kind)
+				}
+			case "hostile-host":
+				// a host that signs extreme prices: they pass the price table's own
+				// validation, so the renter's constructors run on them - and must fail
+				// cleanly (the contract cannot pay) rather than crash the renter
+				ext := []types.Currency{types.MaxCurrency, types.MaxCurrency.Div64(rhp4.SectorSize), types.MaxCurrency.Div64(rhp4.SectorSize).Add(types.NewCurrency64(1)), types.NewCurrency(0, 1<<40), types.NewCurrency(^uint64(0), 0), types.Siacoins(1)}
+				hp := p
+				hp.StoragePrice, hp.Collateral = ext[op.r[0]%len(ext)], ext[op.r[1]%len(ext)]
+				hp.IngressPrice, hp.EgressPrice = ext[op.r[2]%len(ext)], ext[op.r[3]%len(ext)]
+				hp.FreeSectorPrice = ext[op.r[4]%len(ext)]
+				if op.r[5]%3 == 0 {
+					hp.TipHeight = cur.ExpirationHeight + uint64(op.r[5]%5) // a tip the host claims, at or past the contract's end
+				}
+				hp.Signature = host.sk.SignHash(hp.SigHash())
+				if hp.Validate(host.pk) != nil {
+					continue
+				}
+				e.inc("c17.hostile-host-prices")
+				for name, fn := range map[string]func() error{
+					"ReviseForAppendSectors": func() error { _, _, err := rhp4.ReviseForAppendSectors(cur, hp, types.Hash256{1}, uint64(1+op.r[0]%3)); return err },
+					"ReviseForFreeSectors":   func() error { _, _, err := rhp4.ReviseForFreeSectors(cur, hp, types.Hash256{1}, 1+op.r[1]%3); return err },
+					"ReviseForSectorRoots":   func() error { _, _, err := rhp4.ReviseForSectorRoots(cur, hp, uint64(1+op.r[2]%1000)); return err },
+					"RPCReadSectorCost":      func() error { hp.RPCReadSectorCost(rhp4.SectorSize); return nil },
+					"RPCWriteSectorCost":     func() error { hp.RPCWriteSectorCost(rhp4.SectorSize); return nil },
+					"RPCVerifySectorCost":    func() error { hp.RPCVerifySectorCost(); return nil },
+				} {
+					if pn := guardPanic(func() { fn() }); pn != "" {
+						bad("constructor-panic", "%s with host-signed prices that pass HostPrices.Validate (storage %v, collateral %v, ingress %v, egress %v, free sector %v per unit; tip height %d, contract expiration %d) panicked instead of failing cleanly: %s", name, hp.StoragePrice, hp.Collateral, hp.IngressPrice, hp.EgressPrice, hp.FreeSectorPrice, hp.TipHeight, cur.ExpirationHeight, pn)
+						break
+					}
 				}
 			case "hostile":
 				// a renter that sends extreme numbers: the host must answer, whatever it answers
